@@ -19,7 +19,7 @@ DEFECT_NAMES = {"R": "restore-unvalidated", "A": "reverse-add-duplicate", "D": "
                 "X": "pool-outside-overlap", "L": "late-add-completion",
                 "C": "config-port-geometry-unchecked", "G": "preserved-mapping-not-released",
                 "Q": "queue-overflow-drops-release"}
-RULE = ("Four kinds of history. ev: the real Component with its restore-window queue open: lifecycle (active / released / other state) x (IPoE / PPPoE / other access), programmed and restored events and foreign payloads go through the subscribed entry points, restore steps run directly, Z = drainQueue, further events follow; three cases per run overflow the 4096-event bound with a release among the overflowing events.  Three further kinds.  mp: two pools on one PoolManager (outside addresses disjoint, overlapping or equal), cgnat.Config.Validate first, then <=40 pool calls addressed to either pool, dumps with the cross-pool overlap monitor.  comp subscribers come in VRF twins (same inside address in VRF 0, 1, 2) and a share of the activations leaves the dataplane add in flight (L) and completes it later (K ok/failed) in any order relative to the other events.  pool: <=70 calls of AllocateBlock/GetOrAllocate/ReleaseBlocks/RestoreMapping/"
+RULE = ("Four kinds of history. ev: the real Component with its restore-window queue open: lifecycle (active / released / other state) x (IPoE / PPPoE / other access), programmed and restored events and foreign payloads go through the subscribed entry points, restore steps run directly, Z = drainQueue, further events follow; three cases per run overflow the 4096-event bound with a release among the overflowing events.  Three further kinds.  mp: two pools on one PoolManager (outside addresses disjoint, overlapping or equal), cgnat.Config.Validate first, then <=40 pool calls addressed to either pool, dumps with the cross-pool overlap monitor.  comp histories contain up to two process restarts (B: fresh pool manager and component over the same opdb, restoreFromOpDB over all persisted records, decoded from the JSON the component itself wrote) and dumps of the persisted records (b); comp subscribers come in VRF twins (same inside address in VRF 0, 1, 2) and a share of the activations leaves the dataplane add in flight (L) and completes it later (K ok/failed) in any order relative to the other events.  pool: <=70 calls of AllocateBlock/GetOrAllocate/ReleaseBlocks/RestoreMapping/"
         "RestoreMappingIfAbsent on one PoolManager over <=7 subscribers (two VRFs); comp: <=45 events driven through "
         "the real Component (handleSessionActivate with and without an HA-synced record, handleSessionRelease, "
         "restoreFromOpDB with one persisted mapping in the session-present and the degraded branch), each with a fault "
@@ -193,7 +193,8 @@ def gen_comp_case(rng, nmax):
     if clean:
         subs = [k for k in subs if k < 65536] or [1]
     live = {}
-    inflight = []          # sid -> k
+    inflight = []
+    restarts = [0]          # sid -> k
     nxt = [1]
     ops = []
     sw = sweep_ops(gp)
@@ -270,9 +271,18 @@ def gen_comp_case(rng, nmax):
             ev("S:%d:%d:%d:%d:%d:%d:%d" % (sid, k, mk, ip, s, e, ok))
             if ok:
                 live.setdefault(sid, k)
-        elif r < 0.88:
+        elif r < 0.86:
             ops.append("d")
-        elif r < 0.94 and inflight:
+        elif r < 0.88:
+            ops.append("b")                     # the persisted records, decoded
+        elif r < 0.91 and restarts[0] < 2:
+            # process restart over the same opdb: in-flight adds are gone, persisted sessions are restored
+            restarts[0] += 1
+            ops.append("b")
+            ev("B")
+            ops += ["d", "b"]
+            del inflight[:]
+        elif r < 0.95 and inflight:
             sid = inflight.pop(rng.randrange(len(inflight)))
             ev("K:%d:%d" % (sid, 0 if rng.random() < 0.3 else 1))
         else:
@@ -280,7 +290,7 @@ def gen_comp_case(rng, nmax):
     while inflight:
         ev("K:%d:%d" % (inflight.pop(rng.randrange(len(inflight))), 0 if rng.random() < 0.3 else 1))
     ev("C")
-    ops.append("d")
+    ops += ["d", "b"]
     return "comp " + " ".join(toks) + " | " + " ".join(ops)
 
 
@@ -602,7 +612,7 @@ def describe(case, impl, model):
 
 
 def distribution(cases, impl):
-    d = {"pool_cases": 0, "comp_cases": 0, "mp_cases": 0, "mp_rejected": 0, "ev_cases": 0, "ev_queued": 0,
+    d = {"pool_cases": 0, "comp_cases": 0, "mp_cases": 0, "mp_rejected": 0, "restarts": 0, "db_dumps": 0, "db_records_max": 0, "ev_cases": 0, "ev_queued": 0,
          "ev_dropped_max": 0, "ev_drain_adds": 0, "ev_dispatched_direct": 0, "ops": {}, "alloc_ok": 0, "alloc_old": 0, "err_limit": 0, "err_nofree": 0,
          "err_allocfail": 0, "restore_ok": 0, "restore_err": 0, "dp_calls": 0, "panics": 0, "impl_flags": {},
          "blocks_per_addr": {}, "history_len": {"<=10": 0, "11-30": 0, "31-80": 0, ">80": 0},
@@ -623,6 +633,11 @@ def distribution(cases, impl):
                 d["ev_dropped_max"] = max(d["ev_dropped_max"], int(qd))
                 if k == "Z":
                     d["ev_drain_adds"] += r.count("dp ")
+            if k == "B":
+                d["restarts"] += 1
+            if r.startswith("db "):
+                d["db_dumps"] += 1
+                d["db_records_max"] = max(d["db_records_max"], 0 if r == "db -" else r.count(",") + 1)
             if r.startswith("ok new"):
                 d["alloc_ok"] += 1
             elif r.startswith("ok old"):
